@@ -390,3 +390,10 @@ Lemma adts_frequency_refuted :
 Proof.
   exists 88200%Z, (mkAdts 0 2 1 2 7 0 2047). split; [reflexivity|]. vm_compute. discriminate.
 Qed.
+
+Lemma encode_adts_injective a b :
+  adts_canonical a = true -> adts_canonical b = true -> encode_adts a = encode_adts b -> a = b.
+Proof.
+  intros Ha Hb E. pose proof (adts_roundtrip a [] Ha) as Ra. pose proof (adts_roundtrip b [] Hb) as Rb.
+  rewrite E in Ra. rewrite Ra in Rb. now injection Rb.
+Qed.
